@@ -87,6 +87,20 @@ def collide_program(r):
                           'params': [{'name': 'cb', 'type': f_a}], 'throws': None, 'ret': None},
                          {'k': 'method', 'name': 'run_b', 'comment': None, 'static': False, 'const': False, 'async': False,
                           'params': [{'name': 'cb', 'type': f_b}], 'throws': None, 'ret': None}]}]})
+    if r.random() < 0.35:
+        # inline function types with ONE signature but different explicit target lists, in one namespace: distinct declarations
+        # (the generated Java / JNI / ObjC glue differs with the targets) that must not share a file
+        import copy
+        base = {'k': 'fn', 'targets': None, 'params': [{'name': 'value', 'type': {'k': 'data', 'name': 'i32', 'params': [], 'opt': False}}], 'throws': None,
+                'ret': {'k': 'data', 'name': 'bool', 'params': [], 'opt': False}}
+        tl = r.sample([['+java'], ['+cpp'], ['+objc'], ['+cpp', '+java'], ['+cppcli'], None], r.randint(2, 3))
+        ms = []
+        for k_, t_ in enumerate(tl):
+            f_ = copy.deepcopy(base); f_['targets'] = t_
+            ms.append({'k': 'method', 'name': 'use_%d' % k_, 'comment': None, 'static': False, 'const': False, 'async': False,
+                       'params': [{'name': 'cb', 'type': f_}], 'throws': None, 'ret': None})
+        items.append({'k': 'namespace', 'name': 'fnt', 'comment': None, 'items': [
+            {'k': 'interface', 'name': 'target_cbs', 'comment': None, 'main': False, 'targets': ['+cpp'], 'members': ms}]})
     return {'files': {'main.pydjinni': {'loads': [], 'items': items}}, 'root': 'main.pydjinni'}
 
 
@@ -100,6 +114,13 @@ def options(r):
         gen['java']['identifier'] = {'type': r.choice(['PascalCase', 'none', 'camelCase']), 'package': r.choice(['snake_case', 'none'])}
     if r.random() < 0.3:
         gen['objc']['type_prefix'] = r.choice(['', 'PD'])
+    # free-text options away from their defaults (prefixes, extensions): none of them may make two declarations share a file
+    if r.random() < 0.4:
+        gen['java']['function_prefix'] = r.choice(['Fn', 'Callback', 'F'])
+    if r.random() < 0.25:
+        gen['cpp']['include_prefix'] = 'libinc'; gen['jni']['include_prefix'] = 'jnipfx'; gen['jni']['include_cpp_prefix'] = 'cpppfx'
+    if r.random() < 0.25:
+        gen['cpp']['header_extension'] = r.choice(['hxx', 'h']); gen['jni']['header_extension'] = 'hh'
     gen['support_lib_sources'] = False
     return {'generate': gen}
 
